@@ -194,6 +194,57 @@ fn strat(id: CodecId, max: usize) -> BoxedStrategy<Case> {
 }
 
 // ---------------------------------------------------------------------------------------------
+// two windows of the SAME parent (shared storage, possibly overlapping, possibly in the same byte)
+
+#[derive(Clone, Debug, Serialize, Deserialize)]
+pub struct SameParent {
+    pub codec: CodecId,
+    pub parent: SeqSpec,
+    pub i: u16,
+    pub j: u16,
+    pub len: u16,
+}
+
+fn same_parent<C: Cm>(case: &SameParent) -> PResult {
+    let sy = Syms::<C>::new()?;
+    let n_ = C::ID.name();
+    let built = build(&sy, &case.parent)?;
+    let p = built.slice();
+    let pc = &case.parent.codes;
+    let n = pc.len();
+    let len = scale16(case.len, n);
+    let i = scale16(case.i, n - len);
+    let j = scale16(case.j, n - len);
+    let (wa, wb) = (&p[i..i + len], &p[j..j + len]);
+    let (ca, cb) = (&pc[i..i + len], &pc[j..j + len]);
+    let expected = ca == cb;
+    let what = format!("windows [{i}..{}] and [{j}..{}] of one {}-symbol {n_} sequence ({} vs {})", i + len, j + len, n, sy.text(ca), sy.text(cb));
+    ensure_eq!(*wa == *wb, expected, format!("same_parent_eq/{n_}"), "SeqSlice == SeqSlice for {what}");
+    ensure_eq!(*wb == *wa, expected, format!("same_parent_eq/{n_}"), "SeqSlice == SeqSlice (flipped) for {what}");
+    ensure_eq!(wa == *wb, expected, format!("same_parent_eq/{n_}"), "&SeqSlice == SeqSlice for {what}");
+    ensure_eq!(*wa != *wb, !expected, format!("same_parent_ne/{n_}"), "SeqSlice != SeqSlice for {what}");
+    let oa = wa.to_owned();
+    ensure_eq!(oa == *wb, expected, format!("same_parent_eq_owned/{n_}"), "Seq == SeqSlice for {what}");
+    ensure_eq!(*wb == oa, expected, format!("same_parent_eq_owned/{n_}"), "SeqSlice == Seq for {what}");
+    ensure_eq!(*wa == sy.text(cb).as_str(), expected, format!("same_parent_eq_str/{n_}"), "SeqSlice == &str for {what}");
+    // a window always equals itself and a re-borrow of itself
+    ensure!(*wa == p[i..][..len], format!("same_parent_reflexive/{n_}"), "a window != a re-borrow of the same range: {what}");
+    if expected {
+        check_same_hash(wa, wb, &format!("same_parent_hash/{n_}"), &what)?;
+    }
+    let mut map: HashMap<Seq<C>, u8> = HashMap::new();
+    map.insert(oa, 1);
+    ensure_eq!(map.get(wb).is_some(), expected, format!("same_parent_map/{n_}"), "map keyed by the first window queried with the second: {what}");
+    let bits = sy.bits();
+    let same_byte = (i * bits) / 8 == (j * bits) / 8 && i != j;
+    Ok(Pass::new(len >= 1 && i != j).class_if(same_byte && len > 0, "windows_start_in_same_byte").class_if(expected && i != j && len > 0, "equal_windows_different_position").class_if(i != j && (i < j + len && j < i + len), "overlapping_windows"))
+}
+
+fn same_parent_dispatch(c: &SameParent) -> PResult {
+    with_codec!(c.codec, C, same_parent::<C>(c))
+}
+
+// ---------------------------------------------------------------------------------------------
 // k-mers against everything else
 
 #[derive(Clone, Debug, Serialize, Deserialize)]
@@ -297,8 +348,23 @@ pub fn run(ctx: &mut Ctx) {
     }
     for id in ALL_CODECS {
         let m = id.model();
-        let lens = gen::long_lens(ctx.thorough());
+        let lens = gen::long_lens(ctx.thorough(), ctx.seed);
         ctx.forall_lens(&format!("pairs_long/{}", id.name()), &lens, |n| (gen::seq_spec_n(id, n), rel(m), gen::any_repr(m)).prop_map(move |(a, rel, b_repr)| Case { codec: id, a, rel, b_repr }), dispatch);
+    }
+    for id in ALL_CODECS {
+        let m = id.model();
+        let cases = ctx.cases(2500, 10);
+        // periodic content makes equal windows at different positions common; nearby starts share a byte
+        let parent = prop_oneof![
+            2 => gen::seq_spec(id, 120),
+            2 => (1..=4usize, gen::repr(m), 0..=120usize).prop_flat_map(move |(period, repr, n)| gen::codes_n(m, period).prop_map(move |unit| SeqSpec { codes: (0..n).map(|k| unit[k % unit.len()]).collect(), repr: repr.clone() })),
+        ];
+        let st = (parent, any::<u16>(), prop_oneof![2 => any::<u16>(), 1 => Just(0u16)], any::<u16>(), 0..4u16).prop_map(move |(parent, i, dj, len, near)| {
+            // j is either independent or within a few symbols of i
+            let j = if dj == 0 { i.saturating_add(near * 300) } else { dj };
+            SameParent { codec: id, parent, i, j, len }
+        });
+        ctx.forall(&format!("same_parent/{}", id.name()), cases, st, same_parent_dispatch);
     }
     let types = ktypes();
     for id in ALL_CODECS {
@@ -322,7 +388,7 @@ pub fn run(ctx: &mut Ctx) {
         cells.push(KCase { codec: *id, st: *st, k: *k, codes, rel: Rel::Subst(0, 2), other: Repr::Collect });
     }
     ctx.each("all_kmer_types", cells, kcheck);
-    for c in ["equal", "unequal", "different_bit_offsets", "straddling_symbol", "static_side", "raw_bitvec_side", "edited_side", "kmer_shorter_than_storage", "u128_one_word_content", "kmer_vs_offset_slice"] {
+    for c in ["windows_start_in_same_byte", "equal_windows_different_position", "overlapping_windows", "equal", "unequal", "different_bit_offsets", "straddling_symbol", "static_side", "raw_bitvec_side", "edited_side", "kmer_shorter_than_storage", "u128_one_word_content", "kmer_vs_offset_slice"] {
         ctx.require_class(c);
     }
 }
